@@ -232,7 +232,8 @@ def multi_writer_histories(ctx, digital_rf, count, npairs=2, nvec=0):
             for burst in range(3):
                 for cfg, ch, root in chans:
                     b = cfg.bound
-                    ln = max(1, min((b[1] - b[0]) // 2 + 1, b[-1] - ch.pos - 1, 3000))
+                    wlen = b[1] - b[0]
+                    ln = max(1, min(rng.choice([wlen // 2 + 1, wlen // 2 + 1, wlen + 1, wlen + wlen // 2]), b[-1] - ch.pos - 1, 3000))
                     if ln >= 1 and ch.pos + ln < b[-1]:
                         ch.write([[ch.pos, ln]])
                         ch.pos += ln
